@@ -3,6 +3,7 @@
    (a) unit lines (one output line each):
          calc <x>     -> "calc <bits>" | "calc none"
          init <n>     -> "init n=<n> bits=<b> mask=<m> state=<s>" | "init none"
+         preset <n> <k> [w] -> "preset n=.. k=.. reg=.. pre=.. dec=0 state=.. released=.. rets=0 q=.." | "preset none"
    (b) trace blocks (one output line per block): "ok <events>" or "FAIL <line-in-block> <reason>"
          begin <nthreads> <N>
          call <t> <wait|dec>
@@ -48,6 +49,41 @@ let () =
          (match jc_init (zs n) with
           | Some f -> Printf.printf "init n=%s bits=%s mask=%s state=%s\n" (sz f.f_n) (sz f.f_bits) (sz f.f_mask) (sz f.f_state)
           | None -> print_endline "init none")
+     | "preset" :: n :: k :: _ when not !inblock ->
+         (* the wide-value scenario of harness/c07_unit.c: k threads register and fall asleep, the word is
+            preset by N-1 (white-box, standing for N-1 decrements), thread k performs the final decrement,
+            the waiters run again.  Every step goes through the extracted [step]. *)
+         let kk = int_of_string k and nz = zs n in
+         (match init_state nz (ni (kk + 1)) with
+          | None -> print_endline "preset none"
+          | Some s0 ->
+              let st = ref s0 and ok = ref true in
+              let go t e = if !ok then (match step !st (ni t, e) with Some s' -> st := s' | None -> ok := false) in
+              for t = 0 to kk - 1 do go t (ECall Wait); go t ETick; go t ETick; go t ECbTick done;
+              let reg = word !st in
+              let nm1 = BinInt.Z.add nz (Zio.z_of_int (-1)) in
+              st := { !st with word = BinInt.Z.add (word !st) nm1;
+                               gh = { gcalls = nm1; gdec = nm1; gpush = Zio.z_of_int 0; gfinal = None } };
+              let pre = word !st in
+              go kk (ECall Dec); go kk ETick; go kk ETick;
+              let fuel = ref (4 * kk + 8) in
+              while !ok && !fuel > 0 && (let l = str (label !st (ni kk) false) in l = "wakemany.deq" || l = "wakemany.push") do
+                go kk ETick; decr fuel done;
+              let dec_ok = !ok && ret_ok !st (ni kk) (Zio.z_of_int 0) in
+              go kk (ERet (Zio.z_of_int 0));
+              let released = ref 0 in
+              for t = 0 to kk - 1 do
+                if !ok then begin
+                  (match step !st (ni t, ETick) with
+                   | Some s' -> if ret_ok s' (ni t) (Zio.z_of_int 0) then
+                                  (match step s' (ni t, ERet (Zio.z_of_int 0)) with Some s2 -> st := s2; incr released | None -> st := s')
+                                else st := s'
+                   | None -> ())
+                end
+              done;
+              if not !ok || not dec_ok then print_endline "preset none"
+              else Printf.printf "preset n=%s k=%d reg=%s pre=%s dec=0 state=%s released=%d rets=0 q=%d\n"
+                     n kk (sz reg) (sz pre) (sz (word !st)) !released (Stdlib.List.length (sq !st)))
      | ["begin"; nt; n] ->
          inblock := true; ln := 0; cnt := 0; failed := None;
          (match init_state (zs n) (ni (int_of_string nt)) with
